@@ -348,7 +348,11 @@ class OpGen:
         extra = self.p.get("any_extra")
         if kind == "any" and extra and self.src.chance(0.25):
             return self.src.choice(extra)
-        return good_value(self.src, kind)
+        v = good_value(self.src, kind)
+        if kind in ("klist", "kset") and self.p.get("p_user_keyfn") and isinstance(v, list) and v[0] == kind \
+                and self.src.chance(self.p["p_user_keyfn"]):
+            v = [kind + "_fn", v[1]]
+        return v
 
     def gen_new(self, role=None):
         s = self.src
@@ -512,6 +516,14 @@ class OpGen:
                 if valid and n:
                     return s.choice(list(range(-n, n)))
                 return s.choice([n, n + 1, -n - 1, 99])
+
+            def an_index(valid=True, _plain=an_index):
+                if kind == "klist" and valid and items and s.chance(0.3):
+                    # a KeyedList element may be addressed by its key wherever a position is accepted
+                    keys = [_raw(e, "k") for e in items if isinstance(_raw(e, "k"), str)]
+                    if keys:
+                        return s.choice(keys)
+                return _plain(valid)
 
             def an_existing_value():
                 if items and ik == "kitem" and s.chance(0.15):
